@@ -16,7 +16,7 @@ def run(ctx):
     valcorr.cond_expr = biased
     valcorr.EMPTY_HINT[0] = 0.2
     try:
-        cases = valcorr.validation_cases(ctx, 60 if ctx.quick else 1400, unknown=0.0, revisit=0.4)
+        cases = valcorr.validation_cases(ctx, 60 if ctx.quick else 1400, unknown=0.0, revisit=0.4, extra_attrs=0.3)
     finally:
         valcorr.cond_expr = orig
         valcorr.EMPTY_HINT[0] = 0.0
